@@ -220,7 +220,7 @@ fn main() {
                 once per hook point reached (the child is killed there with SIGKILL); the parent recovers every tenant in a new process. \
                 One case = (history, crash position). Non-trivial = the history has a crash or an update; distinct by case text."
         .to_string();
-    let nh: u64 = if args.thorough { 300 } else { 22 };
+    let nh: u64 = if args.thorough { 300 } else { 16 };
     let run_dir = args.out.join(".c16-run");
     for idx in 0..nh {
         let case = gen_case(args.seed, idx);
